@@ -6,6 +6,8 @@ EXPLANATION = ("Bounded runtime contracts on the real tf_pwa.variable.VarsManage
                "Bound transformation on value grids for every bound type.  Nothing is proved for all histories.")
 ASSUMPTIONS = ["histories are bounded in shape (<= 2 complex + 2 real parameters) and length (<= 3 quick / <= 4 thorough); argument values come from a fixed table"]
 
+EXPLANATION += (' Proved for all values: rp2xy / xy2rp / std_polar / standard_complex preserve the complex value, Bound f / inverse / derivatives with symbolic limits, fit coordinates (set_trans_var, set_all, set, get, get_all_val) with a bounded parameter at every position.')
+
 from vt.contracts import iface_vars  # noqa: F401,E402
 from vt.contracts import var_sym  # noqa: F401,E402
 from vt.contracts import iface_c16_config  # noqa: F401,E402
